@@ -64,6 +64,10 @@ func IsPrimitive(input any) bool {
 // Returns the input if already a System type, and an error
 // if the input is not convertible.
 func From(input any) (Any, error) {
+	if element, ok := input.(fhir.Base); ok && !element.ProtoReflect().IsValid() {
+		// a nil element pointer: there is no value to read
+		return nil, fmt.Errorf("%w: nil %T", ErrCantBeCast, input)
+	}
 	switch v := input.(type) {
 	case *dtpb.Boolean:
 		return Boolean(v.Value), nil
